@@ -9,6 +9,7 @@ import (
 	"encoding/json"
 	"fmt"
 	"io"
+	"os"
 	"reflect"
 	"strings"
 	"testing/iotest"
@@ -73,6 +74,12 @@ func buildCase(s txgen.TxSpec) {
 			}
 			if !bytes.Equal(re, f.b) {
 				c.Violate("NewTxFromBytes/"+f.name+"-reserialise", "re-serialised bytes differ", s)
+			}
+			// the same serialisation handed over as text
+			if t3, err := bt.NewTxFromString(common.Hex(f.b)); err != nil {
+				c.Violate("NewTxFromString/"+f.name+"-rejects-own-encoding", err.Error(), s)
+			} else if !bytes.Equal(t3.ExtendedBytes(), got.ExtendedBytes()) {
+				c.Violate("NewTxFromString/"+f.name+"-roundtrip-fields", "the transaction read from the hex text differs from the one read from the bytes", s)
 			}
 			t2, used, err := bt.NewTxFromStream(append(append([]byte{}, f.b...), 0xde, 0xad))
 			if err != nil || used != len(f.b) || !bytes.Equal(t2.Bytes(), std) {
@@ -147,7 +154,7 @@ type reply struct {
 	OK         bool               `json:"ok"`
 	Nontrivial bool               `json:"nt"`
 	Viol       []common.Violation `json:"viol"`
-	Extra      []string           `json:"extra,omitempty"` // further Coq cases of the same request (CListInto)
+	Extra      []extraCase        `json:"extra,omitempty"` // further Coq cases of the same request (CListInto, CText)
 }
 
 // child side: decode one request, state the Go-level predicates, answer with the Coq case
@@ -168,6 +175,7 @@ func handle(line string) string {
 }
 
 func runReqs() {
+	perSite := map[string]int{}
 	lines := make([]string, len(reqs))
 	for i, q := range reqs {
 		lines[i] = q.mode + " " + q.kind + " " + common.Hex(q.b)
@@ -186,12 +194,22 @@ func runReqs() {
 			panic(fmt.Sprintf("bad child reply %q: %v", replies[i], err))
 		}
 		for _, v := range rp.Viol {
-			c.Violate(v.Site, v.What, v.Input)
+			// one broken entry point fails on every request: the first 25 inputs per site are reported, the rest counted
+			if perSite[v.Site]++; perSite[v.Site] <= 25 {
+				c.Violate(v.Site, v.What, v.Input)
+			} else {
+				c.Tally("violations-not-listed/" + v.Site)
+			}
 		}
 		c.Tally(name + "/" + q.kind + "/" + map[bool]string{true: "ok", false: "err"}[rp.OK])
 		c.Case(rp.Coq, map[string]interface{}{"kind": name + "/" + q.kind, "bytes": trunc(common.Hex(q.b))}, q.mode+common.Hex(q.b), rp.Nontrivial)
 		for k, x := range rp.Extra {
-			c.Case(x, map[string]interface{}{"kind": name + "-into-used-destination/" + q.kind, "bytes": trunc(common.Hex(q.b)), "case": strings.SplitN(x, " [", 2)[0]}, fmt.Sprintf("I%d%s", k, common.Hex(q.b)), rp.Nontrivial)
+			twin := map[string]interface{}{"kind": name + "-" + x.Kind + "/" + q.kind, "bytes": trunc(common.Hex(q.b)), "case": strings.SplitN(x.Coq, " [", 2)[0]}
+			if x.Note != "" {
+				twin["note"] = x.Note
+			}
+			c.Tally(name + "-" + x.Kind)
+			c.Case(x.Coq, twin, fmt.Sprintf("I%d%s%s", k, x.Note, common.Hex(q.b)), rp.Nontrivial)
 		}
 	}
 }
@@ -270,6 +288,7 @@ func doParse(b []byte, rp *reply, viol func(site, what string)) {
 	}
 	if ok {
 		elemChecks(tx, viol)
+		serialiserEntryPoints(tx, std, viol)
 	}
 	if len(b) > 4 {
 		varintReuse(b[4:], viol)
@@ -279,6 +298,7 @@ func doParse(b []byte, rp *reply, viol func(site, what string)) {
 	if fbOK != (ok && used == len(b)) {
 		viol("NewTxFromBytes/trailing", "accepts iff stream consumed everything violated")
 	}
+	entryPoints(b, ok, used, std, ext, rp)
 	rp.OK, rp.Nontrivial = ok, ok
 	rp.Coq = fmt.Sprintf("CParse %s %s %d %s %s %s", common.CoqBytes(b), common.CoqBool(ok), used, common.CoqStr(common.Sha256Hex(std)), common.CoqStr(common.Sha256Hex(ext)), common.CoqBool(fbOK))
 }
@@ -332,7 +352,9 @@ func doList(b []byte, rp *reply, viol func(site, what string)) {
 			viol("Txs.ReadFrom/source-not-consumed-to-exactly-the-end-of-the-list", fmt.Sprintf("%d bytes left, expected %d", src.Len(), len(b)-int(n)))
 		}
 	}
-	rp.Extra = listInto(b, ok, n, cnt, all, err, viol)
+	for _, x := range listInto(b, ok, n, cnt, all, err, viol) {
+		rp.Extra = append(rp.Extra, extraCase{Coq: x, Kind: "into-used-destination"})
+	}
 	varintReuse(b, viol)
 	rp.OK, rp.Nontrivial = ok, ok && cnt > 0
 	rp.Coq = fmt.Sprintf("CList %s %s %d %d %s", common.CoqBytes(b), common.CoqBool(ok), n, cnt, common.CoqStr(common.Sha256Hex(all)))
@@ -595,9 +617,13 @@ func varintNonMinimal(v uint64, class int) []byte {
 func main() {
 	c = common.Parse("C01")
 	if c.Mode == "child" {
+		if os.Getenv("C01_TIER") == "thorough" {
+			textEvery = 4
+		}
 		common.ChildLoop(3000, handle)
 		return
 	}
+	os.Setenv("C01_TIER", c.Tier) // the children (common.Isolated) inherit the environment
 	c.SetHeader(header)
 	c.PerShard = 150
 	r := common.NewRand(c.Seed)
@@ -791,7 +817,9 @@ func main() {
 		}
 		listCase("consecutive", append(bt.VarInt(uint64(k)).Bytes(), append(body, r.Bytes(k)...)...))
 	}
+	// field values a guard could single out, in every field, shape and format (entry.go)
+	markerCases(r, c.Thorough())
 	runReqs()
-	c.Stats.Rule = "structured generator (boundary field values, script lengths {0,1,2,3,25,75,76,107,252,253,254,300,65535,65536,70000}, counts {0..3,252,253,254,300}) -> build cases; byte-level stream: valid/concatenated/truncated(every offset of one tx)/trailing/bit-flipped/random/hostile-length/non-minimal-varint-in-every-position/counts 2^62..2^64-1 in every count and length position followed by a complete transaction for count zero, and counted lists; every parse request is also read through Tx.ReadFrom into long-lived transaction objects (plain, one-byte-at-a-time and data-with-EOF readers) whose result must not depend on what they held before; every list request is also read through Txs.ReadFrom into destinations with a past (three long-lived lists, one per reader kind, and four populated on the spot: empty with spare capacity, full, partly filled, holding nil elements) and must leave exactly what a fresh destination holds; every input / output of an accepted transaction is read on its own through Input.ReadFrom / ReadFromExtended / Output.ReadFrom into a fresh and a long-lived element (exact consumption, equal to the element, long-lived = fresh), and the leading length prefix into a fresh and a long-lived VarInt. distinct = distinct input bytes; non-trivial = build cases with at least one input or output, parse cases the decoder accepts, lists with at least one tx"
+	c.Stats.Rule = "structured generator (boundary field values, script lengths {0,1,2,3,25,75,76,107,252,253,254,300,65535,65536,70000}, counts {0..3,252,253,254,300}) -> build cases; byte-level stream: valid/concatenated/truncated(every offset of one tx)/trailing/bit-flipped/random/hostile-length/non-minimal-varint-in-every-position/counts 2^62..2^64-1 in every count and length position followed by a complete transaction for count zero, and counted lists; every parse request is also read through Tx.ReadFrom into long-lived transaction objects (plain, one-byte-at-a-time and data-with-EOF readers) whose result must not depend on what they held before; every list request is also read through Txs.ReadFrom into destinations with a past (three long-lived lists, one per reader kind, and four populated on the spot: empty with spare capacity, full, partly filled, holding nil elements) and must leave exactly what a fresh destination holds; every input / output of an accepted transaction is read on its own through Input.ReadFrom / ReadFromExtended / Output.ReadFrom into a fresh and a long-lived element (exact consumption, equal to the element, long-lived = fresh), and the leading length prefix into a fresh and a long-lived VarInt. Field values a guard could single out (round 8): uint32 values built from the byte patterns of well-known markers read in both byte orders (BEEF / atomic BEEF versions, the extended-format marker bytes and their neighbours, network magics, BIP32 versions, ASCII tags), boundaries (varint class bytes, BIP68 / locktime thresholds, sign bit, final sequences) and one telling byte in every position; uint64 values likewise (money range edges, patterns in the low and the high half); each value in every uint32 / uint64 field by rotation, in every shape (inputs and outputs, one-sided, empty), the same marker in all fields, special outpoints (null / all-ff / marker-bearing txids x indices ffffffff, 0, 1, fffffffe, 7fffffff, 80000000) alone and at every position among ordinary inputs - all as build cases, as parse requests in both formats and inside counted lists. Entry points (round 8): every parse request is also handed over as hex text to NewTxFromString and as the `hex` member of a JSON document in both dialects, and as the only element of a counted list; for an accepted transaction also its text in upper case and followed by 18 kinds of trailing material (more bytes, a second / truncated / doubled copy, a dangling digit, non-hex characters, white space, NUL, 0x, the extended marker): a text is accepted iff this harness's own hex decoder decodes it and NewTxFromBytes accepts the bytes, and then it is that transaction; a sample of the texts is evaluated on the model (CText, model/TxText.v); String() and Size() agree with Bytes(). distinct = distinct input bytes; non-trivial = build cases with at least one input or output, parse cases the decoder accepts, lists with at least one tx"
 	c.Finish()
 }
